@@ -436,9 +436,59 @@ def run_cursor(prog, ctx=None):
             first = min(k for k, e2 in enumerate(b.el) if decs_in(e2, comp) or e2 is b.el[i])
             v = an.val(b.id, min(first, i), cexpr)
             ok = v is not None and v.lo >= 1
+            if not ok and f.static and comp[0] == "mem":
+                # file-local helper: the guard may live in the callers — accepted when every call site is dominated by the
+                # non-zero edge of a test of the same count
+                ok = _callers_guard_count(prog, f, comp[1])
             res.ob(key, ok, f, n.get("l", 0),
                    "" if ok else "cursor advanced while its element count may be zero (%s)" % v, {"count": v.tojson() if v else None})
     return res
+
+
+def _callers_guard_count(prog, g, base_text):
+    """every direct call of the file-local function g passes, for the parameter named base_text, an object whose ->clen was
+    tested non-zero on every way to the call"""
+    pidx = [k for k, p in enumerate(g.params) if p["n"] == base_text]
+    if not pidx:
+        return False
+    sites = 0
+    for f in prog.by_file.get(g.file, []):
+        if f.nocfg or f is g:
+            continue
+        dom = None
+        for b, i, e in f.elements():
+            if not (e.get("k") == "call" and e.get("fn") and g in prog.resolve_call(f, e)):
+                continue
+            sites += 1
+            if pidx[0] >= len(e.get("args", [])):
+                return False
+            at = strip(e["args"][pidx[0]], all_casts=True)
+            arrow = True
+            if at.get("k") == "un" and at.get("op") == "&":
+                at = strip(at["e"], lvalue_to_rvalue=False)
+                arrow = False
+            atext = norm(show(at, f))
+            dom = dom or f.dominators()
+            good = False
+            for did in dom[b.id]:
+                D = f.blocks[did]
+                if not (D.term and D.term.get("cond") is not None and len(D.succ) == 2):
+                    continue
+                c = strip(D.term["cond"], all_casts=True)
+                if D.term.get("cls") != "BinaryOperator":
+                    while c.get("k") == "bin" and c.get("op") in ("&&", "||"):
+                        c = strip(c["b"], all_casts=True)
+                neg = False
+                while c.get("k") == "un" and c.get("op") == "!":
+                    neg = not neg
+                    c = strip(c["e"], all_casts=True)
+                if c.get("k") == "mem" and c.get("f") == "clen" and bool(c.get("arrow")) == arrow and norm(show(c["b"], f)) == atext:
+                    nz = D.succ[1 if neg else 0]
+                    if nz is not None and (nz == b.id or nz in dom[b.id]):
+                        good = True
+            if not good:
+                return False
+    return sites > 0
 
 
 def natural_loops(f):
